@@ -127,8 +127,9 @@ def one(job):
     module, cfg, path, env, what, tag = job
     try:
         r = tlc_trace(module + ".tla", os.path.join(SPEC, cfg), path, tag, timeout=600, env=env)
-        nb = r["result"].get("nbad", len(r["result"].get("bad", [])))
-        return (module, what, "rejected" if nb else "accepted", "")
+        # violations tagged [Kn] are the open known findings that the unchanged tree's traces contain
+        bad = [b for b in r["result"].get("bad", []) if not str(b.get("clause", "")).split("|")[-1].lstrip().startswith("[K")]
+        return (module, what, "rejected" if bad else "accepted", "")
     except ToolError as e:
         return (module, what, "error", str(e)[:1500])
 
